@@ -73,6 +73,18 @@ def pty_sessions(ctx):
     cov = {"pty_sessions": len(sessions), "pty_bytes_written": meta.get("bytes_written", 0),
            "pty_polls_returning_with_output_pending": meta.get("polls_returning_with_output_pending", 0),
            "pty_drops_discarding_frames": meta.get("drops_discarding_frames", 0)}
+    # the branches of the write step that only a fault script reaches, and the drop that finds the chunk in flight
+    # partly sent, must have been exercised: a run that did not reach them proves nothing about them
+    required = ["forced_short_writes", "forced_zero_byte_writes", "forced_eagain", "forced_eintr",
+                "drops_with_front_chunk_partly_sent", "polls_returning_with_output_pending", "image_bytes"]
+    for k in required:
+        cov["pty_" + k] = meta.get(k, 0)
+    if not ctx.get("replay"):
+        missing = [k for k in required if not meta.get(k, 0)]
+        if missing:
+            violations.append({"kind": "broken-correspondence",
+                               "what": "the pty sessions did not reach: %s (fault script hook of Tty::write not effective, or generator changed)" % ", ".join(missing),
+                               "case": {"pty_counters": {k: meta.get(k, 0) for k in required}}})
     return {"violations": violations, "coverage": cov, "notes": notes}
 
 
